@@ -19,6 +19,7 @@ import numpy as np
 
 from vp import core, probe
 from vp import defaults
+from vp import reuse
 
 RULE = ('complete enumeration of all programs of length <= 3 (quick) / <= 4 (thorough) over {Plane, Pupil, Image, Tilt, '
         'DispersiveTilt, Grism, Rotate, Flip, bare Plane(ptype=t) for the 5 plane types, propagate_dft, propagate_fft} from each of the start types none/pupil/image, '
@@ -328,6 +329,7 @@ def other_process(ctx, lentil, traces):
 
 def workload(ctx, lentil):
     defaults.run(ctx, lentil, 'C08', 'trace=automaton')
+    reuse.run(ctx, lentil, 'C08', 'trace=automaton')
     rng = ctx.rng
     maxlen = 3 if ctx.tier == 'quick' else 4
     traces = []
